@@ -32,9 +32,12 @@ def main(tier, replay=None):
             sp["ensemble_engines"] = [["engine0"]] + [["engine"]] * (sp["n"] - 1)
             sp["extra_engines"] = ("engine0",)
     sc.random_runs(specs)
-    sc.chk.assumptions += ["worker processes are replaced by in-process execution of run_md in the order chosen by the driver; "
+    # real concurrency: the unmodified scheduler() with a real process pool (completion order decided by the operating system)
+    sc.real_pool_runs(S.real_pool_specs(sc.chk.seed + 77, 8 if q else 60, kills=not q, n_values=(3, 4) if q else (3, 4, 5)))
+    sc.chk.assumptions += ["in the replayed behaviours and the step-driven runs worker processes are replaced by in-process execution of run_md "
+                           "in the order chosen by the driver; the real-pool runs use the unmodified scheduler() and a real process pool; "
                            "the engine exclusivity checked is that of the instances handed out by the main process",
-                           "events are recorded by calling the public methods in the order scheduler() calls them"]
+                           "events are recorded by calling (or, for real-pool runs, wrapping) the public methods in the order scheduler() calls them"]
     return sc.finish("behaviours of Infretis.tla sampled by TLC and replayed on the real REPEX_state, plus recorded real runs; "
                      "a case is one behaviour/run, distinct by its action sequence or run parameters; every one has >= 2 workers "
                      "or a zero swap, an accept and a reject somewhere in the sample")
